@@ -1,10 +1,50 @@
 """one-shot obligation discharge (DESIGN 2.4): identity / tolerance / fact shapes"""
-import time, random
+import os, time, random
 from fractions import Fraction as Fr
 import numpy as np
 from .core import z3, SymC, SymB, Poly, Ctx, side_for, zvar, BOUNDS, Inconclusive, F0, F1, SQRT
 
 STATS = dict(queries=0, unsat=0, sat=0, unknown=0, trivial=0, solver_s=0.0)
+
+
+CROSS = dict(first=int(os.environ.get("VERIF_CROSS_FIRST", "3")), every=int(os.environ.get("VERIF_CROSS_EVERY", "100")), seen=0)
+STATS.update(cvc5_agree=0, cvc5_disagree=0, cvc5_unknown=0, cvc5_s=0.0)
+try:
+    import cvc5 as _cvc5
+except Exception:       # the second solver is optional (wheel missing): say so in the evidence
+    _cvc5 = None
+
+
+def _second_opinion(solver, verdict):
+    """the same SMT-LIB2 text (z3's own printing of the query) decided by cvc5 1.4 under a time cap (1 s quick, 5 s thorough); a sat/unsat disagreement is never success"""
+    t0 = time.time()
+    try:
+        txt = solver.to_smt2()
+        slv = _cvc5.Solver()
+        slv.setOption("tlimit-per", os.environ.get("VERIF_CROSS_MS", "1000"))
+        slv.setLogic("ALL")
+        sm = _cvc5.SymbolManager(slv)
+        ip = _cvc5.InputParser(slv, sm)
+        ip.setStringInput(_cvc5.InputLanguage.SMT_LIB_2_6, txt, "q")
+        res = None
+        while True:
+            cmd = ip.nextCommand()
+            if cmd.isNull():
+                break
+            out = str(cmd.invoke(slv, sm)).strip()
+            if out in ("sat", "unsat", "unknown"):
+                res = out
+    except Exception:
+        res = "unknown"
+    STATS["cvc5_s"] += time.time() - t0
+    if res in ("sat", "unsat"):
+        if res == verdict:
+            STATS["cvc5_agree"] += 1
+        else:
+            STATS["cvc5_disagree"] += 1
+            raise Inconclusive(f"solver disagreement: z3 says {verdict}, cvc5 says {res}")
+    else:
+        STATS["cvc5_unknown"] += 1
 
 
 def _check(assertions, timeout_ms, logic=None):
@@ -20,6 +60,10 @@ def _check(assertions, timeout_ms, logic=None):
     STATS["solver_s"] += time.time() - t0
     rs = str(r)
     STATS[rs] = STATS.get(rs, 0) + 1
+    if _cvc5 is not None and rs in ("sat", "unsat") and len(assertions) > 1:
+        CROSS["seen"] += 1
+        if CROSS["seen"] <= CROSS["first"] or CROSS["seen"] % CROSS["every"] == 0:
+            _second_opinion(s, rs)
     return rs, s
 
 
